@@ -182,7 +182,7 @@ theorem C04_number_line (cc : CharClasses) (hcc : Sane cc) (items : List (Item N
     (tail : List Char) (htail : ∀ c ∈ tail, isWs c = true) :
     tokens cc .NUMBER (litLine NumLit.text items tail) = .ok (items.map (fun i => i.lit.val)) := by
   refine tokens_litLine (cc := cc) .NUMBER NumLit.text NumLit.val (NumBoundary cc) NumBoundary.nil
-    (numBoundary_ws hcc) (NumLit.WF cc) ?_ (numLit_head hcc) items hitems hsep tail htail
+    (numBoundary_ws hcc) (NumLit.WF cc) ?_ (numLit_head hcc) items hitems (Or.inl hsep) tail htail
   intro a ha p rest hb
   cases a with
   | int i => exact (C04_int_lit cc hcc i ha p rest hb).2
@@ -197,11 +197,11 @@ theorem C04_int_line (cc : CharClasses) (hcc : Sane cc) (items : List (Item IntL
     tokens cc .NUMBER (litLine IntLit.text items tail) = .ok (items.map (fun i => Py.Val.int i.lit.text)) := by
   constructor
   · refine tokens_litLine (cc := cc) .INT IntLit.text (fun i => Py.Val.int i.text) (NumBoundary cc) NumBoundary.nil
-      (numBoundary_ws hcc) IntLit.WF ?_ intLit_head items hitems hsep tail htail
+      (numBoundary_ws hcc) IntLit.WF ?_ intLit_head items hitems (Or.inl hsep) tail htail
     intro a ha p rest hb
     exact (C04_int_lit cc hcc a ha p rest hb).1
   · refine tokens_litLine (cc := cc) .NUMBER IntLit.text (fun i => Py.Val.int i.text) (NumBoundary cc) NumBoundary.nil
-      (numBoundary_ws hcc) IntLit.WF ?_ intLit_head items hitems hsep tail htail
+      (numBoundary_ws hcc) IntLit.WF ?_ intLit_head items hitems (Or.inl hsep) tail htail
     intro a ha p rest hb
     exact (C04_int_lit cc hcc a ha p rest hb).2
 
@@ -217,7 +217,7 @@ theorem C04_float_line (cc : CharClasses) (hcc : Sane cc) (items : List (Item Fl
       tokens cc .NUMBER (litLine FloatLit.text items tail) = .ok (items.map (fun i => Py.Val.float i.lit.text))) := by
   constructor
   · refine tokens_litLine (cc := cc) .FLOAT FloatLit.text (fun f => Py.Val.float f.text) (NumBoundary cc) NumBoundary.nil
-      (numBoundary_ws hcc) (FloatLit.WF cc) ?_ (floatLit_head hcc) items hitems hsep tail htail
+      (numBoundary_ws hcc) (FloatLit.WF cc) ?_ (floatLit_head hcc) items hitems (Or.inl hsep) tail htail
     intro a ha p rest hb
     exact (C04_float cc hcc a ha p rest hb).1
   · intro hstrict
@@ -226,12 +226,12 @@ theorem C04_float_line (cc : CharClasses) (hcc : Sane cc) (items : List (Item Fl
     constructor
     · refine tokens_litLine (cc := cc) .STRICTFLOAT FloatLit.text (fun f => Py.Val.float f.text) (NumBoundary cc)
         NumBoundary.nil (numBoundary_ws hcc) (fun f => f.WF cc ∧ f.Strict) ?_ (fun f hf => floatLit_head hcc f hf.1)
-        items hitems' hsep tail htail
+        items hitems' (Or.inl hsep) tail htail
       intro a ha p rest hb
       exact ((C04_float cc hcc a ha.1 p rest hb).2 ha.2).1
     · refine tokens_litLine (cc := cc) .NUMBER FloatLit.text (fun f => Py.Val.float f.text) (NumBoundary cc)
         NumBoundary.nil (numBoundary_ws hcc) (fun f => f.WF cc ∧ f.Strict) ?_ (fun f hf => floatLit_head hcc f hf.1)
-        items hitems' hsep tail htail
+        items hitems' (Or.inl hsep) tail htail
       intro a ha p rest hb
       exact ((C04_float cc hcc a ha.1 p rest hb).2 ha.2).2
 
@@ -244,7 +244,7 @@ theorem C04_bool_line (cc : CharClasses) (hcc : Sane cc) (items : List (Item (Li
   refine tokens_litLine (cc := cc) .BOOL Prod.fst (fun a => Py.Val.bool a.2)
     (fun rest => ∀ c, rest.head? = some c → cc.isWord c = false) (by simp)
     (fun c t hc d hd => by simp at hd; subst hd; exact (ws_facts hcc hc).1)
-    (fun a => a ∈ boolSpellings) ?_ (fun a ha => bool_head a.1 a.2 ha) items hitems hsep tail htail
+    (fun a => a ∈ boolSpellings) ?_ (fun a ha => bool_head a.1 a.2 ha) items hitems (Or.inl hsep) tail htail
   intro a ha p rest hb
   exact C04_bool cc hcc a.1 a.2 ha p rest hb
 
@@ -286,7 +286,7 @@ theorem C04_number_line_text (cc : CharClasses) (hcc : Sane cc) (items : List (I
     (tail : List Char) (htail : ∀ c ∈ tail, isWs c = true) :
     tokens cc .NUMBER (litLine id items tail) = .ok (items.map (fun i => numVal i.lit)) := by
   refine tokens_litLine (cc := cc) .NUMBER id numVal (NumBoundary cc) NumBoundary.nil
-    (numBoundary_ws hcc) (fun t => litKind t ≠ 0) ?_ ?_ items hitems hsep tail htail
+    (numBoundary_ws hcc) (fun t => litKind t ≠ 0) ?_ ?_ items hitems (Or.inl hsep) tail htail
   · intro t ht p rest hb
     exact C04_number_text cc hcc t ht p rest hb
   · intro t ht
@@ -306,14 +306,35 @@ theorem C04_float_text (cc : CharClasses) (hcc : Sane cc) (t : List Char) (f : F
 /-- **Lines as the harness writes them.** `lineHyp ty items tail` is a decidable check of the hypotheses
 of the line theorems on plain text: every item is whitespace followed by a text that the scanners accept
 as a literal for `ty` (INT: `[-+]?[0-9]+`; STRICTFLOAT: float literal with '.' or exponent; NUMBER: either;
-FLOAT: any float literal; BOOL: a spelling of the table), items are separated, the tail is whitespace.
+FLOAT: any float literal; BOOL: a spelling of the table; STRING: `encode q s` of a string without trailing
+backslash, decoded by `strLit?`), items are separated (strings may touch), the tail is whitespace.
 Whenever it holds, `Model: v*=ty;` on the line yields `litVal ty` of every literal text: the text itself
-handed to `int()` / `float()`, or the bool the spelling stands for.  The driver evaluates `lineHyp` on
+handed to `int()` / `float()`, the bool the spelling stands for, or the decoded string.  The driver evaluates `lineHyp` on
 every generated line and the harness compares it with its own hypothesis predicate. -/
 theorem C04_line_checked (cc : CharClasses) (hcc : Sane cc) (ty : BaseType) (items : List (Item (List Char)))
     (tail : List Char) (h : lineHyp ty items tail = true) :
     tokens cc ty (litLine id items tail) = .ok (items.map (fun i => litVal ty i.lit)) := by
   obtain ⟨hitems, hsep, htail⟩ := lineHyp_spec h
+  by_cases hty : ty = .STRING
+  · -- strings: no boundary needed, they may touch
+    subst hty
+    refine tokens_litLine (cc := cc) .STRING id (litVal .STRING) (fun _ => True) trivial (fun _ _ _ => trivial)
+      (fun t => litOk .STRING t = true) ?_ ?_ items hitems (Or.inr (fun _ => trivial)) tail htail
+    · intro t ht p rest _
+      simp only [litOk, Option.isSome_iff_exists] at ht
+      obtain ⟨⟨q, s⟩, hqs⟩ := ht
+      obtain ⟨h1, h2, h3⟩ := strLit?_sound t q s hqs
+      have := C04_string cc q h2 s h3 p rest
+      rw [← h1] at this
+      have hv : litVal .STRING t = .str s := by simp [litVal, hqs]
+      show Reads cc .STRING p t rest (litVal .STRING t)
+      rw [hv]; exact this
+    · intro t ht
+      simp only [litOk, Option.isSome_iff_exists] at ht
+      obtain ⟨⟨q, s⟩, hqs⟩ := ht
+      obtain ⟨h1, h2, _⟩ := strLit?_sound t q s hqs
+      exact ⟨q, escape q s ++ [q], by rw [h1]; rfl, quote_not_ws q h2⟩
+  have hsep' : Separated items := hsep.resolve_left hty
   have key : ∀ t, litOk ty t = true →
       (∀ p rest, NumBoundary cc rest → Reads cc ty p t rest (litVal ty t)) ∧ ∃ c t', t = c :: t' ∧ isWs c = false := by
     intro t ht
@@ -347,10 +368,26 @@ theorem C04_line_checked (cc : CharClasses) (hcc : Sane cc) (ty : BaseType) (ite
       refine ⟨fun p rest hb => ?_, bool_head t b hm⟩
       have := C04_bool cc hcc t b hm p rest (fun c hc => (hb c hc).1)
       simpa [litVal, hb'] using this
-    | STRING => simp [litOk] at ht
+    | STRING => exact absurd rfl hty
   exact tokens_litLine (cc := cc) ty id (litVal ty) (NumBoundary cc) NumBoundary.nil (numBoundary_ws hcc)
     (fun t => litOk ty t = true) (fun t ht p rest hb => (key t ht).1 p rest hb) (fun t ht => (key t ht).2)
-    items hitems hsep tail htail
+    items hitems (Or.inl hsep') tail htail
+
+/-- **STRING on plain text.** `strLit?` decodes a quoted text (no regex involved); it accepts exactly the
+texts `encode q s` of the property (either quote, only that quote escaped, `s` not ending in a backslash)
+and returns `s`; every accepted text is read completely by STRING and yields the decoded string. -/
+theorem C04_string_text (cc : CharClasses) (t : List Char) :
+    (∀ q s, strLit? t = some (q, s) ↔ t = encode q s ∧ (q = '"' ∨ q = '\'') ∧ noTrailingBackslash s) ∧
+    (∀ q s, strLit? t = some (q, s) → ∀ p rest, Reads cc .STRING p t rest (.str s)) := by
+  constructor
+  · intro q s
+    constructor
+    · exact strLit?_sound t q s
+    · intro ⟨h1, h2, h3⟩; subst h1; exact strLit?_complete q h2 s h3
+  · intro q s h p rest
+    obtain ⟨h1, h2, h3⟩ := strLit?_sound t q s h
+    rw [h1]
+    exact C04_string cc q h2 s h3 p rest
 
 /-- **The scanners are exactly the literal grammars** (independent specification of `intLit?` /
 `floatLit?`, which the driver runs): a text is accepted with parse `i` / `f` iff `i` / `f` is a
@@ -413,5 +450,8 @@ example : lineHyp .NUMBER [⟨[' '], "-12".toList⟩, ⟨['\n', ' '], ".5".toLis
 example : lineHyp .BOOL [⟨[], "true".toList⟩, ⟨[' '], "0".toList⟩] [] = true := by decide
 example : lineHyp .INT [⟨[], "1".toList⟩, ⟨[], "2".toList⟩] [] = false := by decide
 example : lineHyp .STRICTFLOAT [⟨[], "12".toList⟩] [] = false ∧ lineHyp .FLOAT [⟨[], "12".toList⟩] [] = true := by decide
+example : lineHyp .STRING [⟨[], "\"a\\\"b\"".toList⟩, ⟨[], "'c\\''".toList⟩, ⟨[' '], "\"\"".toList⟩] ['\n'] = true := by decide
+example : strLit? "'it\\'s \\\\ \"x\"'".toList = some ('\'', "it's \\\\ \"x\"".toList) := by decide
+example : strLit? "\"a\\\"".toList = none ∧ strLit? "\"a\"b\"".toList = none := by decide
 
 end BaseTypes
